@@ -480,6 +480,7 @@ var procFiles = set("comm.go", "trz.go", "tsz.go", "transfer.go")
 
 var selSubs = []selSub{
 	{pkg: "time", name: "Sleep", repl: "Sleep"},
+	{pkg: "runtime/debug", name: "Stack", repl: "Stack"}, // stack text with addresses/goroutine ids would end up in FAIL messages
 	{pkg: "os", name: "Stdin", repl: "Stdin", call: true, files: procFiles},
 	{pkg: "os", name: "Stdout", repl: "Stdout", call: true, files: procFiles},
 	{pkg: "os", name: "Stderr", repl: "Stderr", call: true, files: procFiles},
@@ -776,7 +777,7 @@ func main() {
 			if imp.Name != nil && (imp.Name.Name == "_" || imp.Name.Name == ".") {
 				continue
 			}
-			if p != "os" && p != "net" && p != "time" {
+			if p != "os" && p != "net" && p != "time" && p != "runtime/debug" {
 				continue
 			}
 			if !astutil.UsesImport(file, p) {
